@@ -78,7 +78,7 @@ EXTRA = {
  "C15": "Since the eighth round: a later alarm on the same connection uploads a new file under an already used name (a completion report is judged against every file of that name announced so far); names may contain a zero byte.",
  "C16": "Since the eighth round: a later alarm reuses a file name, with losses and a resupply round in the new upload.",
  "C18": "Since the eighth round: part of the runs keep the library's default event objects, so that their fields are in the detector's view; C09's and C11's new scenarios are inherited.",
- "C19": "Since the eighth round: announced names longer than the 50-byte name field of a data packet whose first 50 bytes are a harmless local path (data packets carry the prefix).",
+ "C19": "Since the eighth round: announced names longer than the 50-byte name field of a data packet whose first 50 bytes are a harmless local path (data packets carry the prefix). Since the ninth round: a user-written data handler (WithDataHandleFunc) in front of the default file handler in 12 % of the non-HLJ runs.",
  "C20": "Since the eighth round: requests for unsupported commands between frames (no frame, no serial consumed) and custom location bodies of 999..1023 bytes.",
 }
 for _k, _v in EXTRA.items():
